@@ -23,6 +23,20 @@ CLAIMED = {
     "C08": ("§C08", "Per computer and listed K, z3 shows results are independent of two arbitrary stale pre-states, idempotent, equal along different reveal orders "
             "with a reveal/un-reveal detour, and that ICG_Gym.step followed by unstep restores table, state, reward, mask, steps and done term-for-term.",
             "Trusts: z3, symx carrier, generator stub; sam_apx_100/1000 only under SAM(v) at n=3."),
+    "C04": ("§C04", "Direct runs (n=3 all K, r up to 1000; n=4 r<=2; n=5 r=0) decide every clause for all SAM games; an inductive step for the repetition loop "
+            "(loop-schedule stub: one more repetition from ANY state with SA-lower<=L<=v) shows the invariant, never-loosening, lower monotonicity and every "
+            "upper-bound clause are preserved - covering all repetition counts for the listed K at n<=5.",
+            "Trusts: z3, symx carrier, the loop-schedule stub of module-global range in bounds.py (checked to be consumed exactly once), symbolic min/max."),
+    "C05": ("§C05", "For each n<=6 (8 thorough) one symbolic run of compute_exploitability / MaxGainGame / Shapley on arbitrary real bound vectors; z3 proves the binomial "
+            "identity, the summed-max-gain identity, non-negativity, zero iff degenerate, and Shapley domination for every completion in the box.",
+            "Trusts: z3, symx carrier."),
+    "C06": ("§C06", "For each n<=6 (7 thorough) the real Shapley code on a fully symbolic game equals the explicit average over all n! orderings; efficiency, additivity "
+            "(real __add__), homogeneity, null player, entry-point agreement to n=8 (10), relabelling for all permutations n<=4 (5).",
+            "Trusts: z3, symx carrier, harness-side enumeration of orderings with exact fractions."),
+    "C07": ("§C07", "Interval monotonicity proved per lattice edge (all edges n=3, 640/5120 at n=4, listed edges n=5) for SA, SA-cached, sam_apx_1 via the real reveal history; "
+            "the four real gap callables proved non-increasing / non-negative / zero-when-degenerate / equal to their definitions on abstract nested boxes "
+            "(compositional), plus end-to-end on the whole n=3 lattice.",
+            "Trusts: z3, symx carrier, np.linalg.norm model, SQ/SQRT as uninterpreted functions with instantiated monotonicity axioms."),
 }
 
 NOT_YET = {}
